@@ -106,7 +106,7 @@ Section Spec.
     end.
 
   (* ---------------------------------------------------------------- the known-deviation classes *)
-  Inductive dev26 := MissingInterface | InvalidArgsName | NoargExtra | StructFlattened | SingleStructReturn.
+  Inductive dev26 := MissingInterface | NoargExtra | StructFlattened | SingleStructReturn.
 
   (* the method the model would run, if any (used only to classify) *)
   Definition target_method (root : node) (c : call) : option (found * mdesc) :=
@@ -131,20 +131,12 @@ Section Spec.
             if types_match md (c_args c) then
               match f, md_out md with
               | FUser _, OSingle t => match struct_fields t with Some _ => Some SingleStructReturn | None => None end
-              | FStd d, _ =>
-                  (* Properties.*: an argument that is not an interface name is answered with the zbus error *)
-                  if lbeq (id_name d) props_name then
-                    match c_args c with
-                    | VS iface :: _ => if C10.Model.validate_interface iface then None else Some InvalidArgsName
-                    | _ => None
-                    end
-                  else None
               | _, _ => None
               end
             else
               match md_ins md with
               | [] => Some NoargExtra
-              | _ => if args_ok md (c_args c) then Some StructFlattened else Some InvalidArgsName
+              | _ => if args_ok md (c_args c) then Some StructFlattened else None
               end
         | None => None
         end
